@@ -109,7 +109,11 @@ def _one(fi, named, t1, t2, two):
     for prev, psnap in inter:
         if snapshot(prev) != psnap:
             return False
-    return True
+    # and the other way round: extending the input afterwards does not reach the result already returned
+    rsnap = snapshot(R)
+    F.add_clause([-1] if F.number_of_variables() >= 1 else [])
+    F.header['later entry'] = 'y'
+    return snapshot(R) == rsnap
 
 
 def _idx(name, **kw):
@@ -322,8 +326,10 @@ def _nx_args(which, bits, as_str):
         return snap(N) == before and snap(D) == dsnap
     if which == 1:
         N = networkx.Graph()
-        N.add_nodes_from(['x', 'y', 'z', 'w'], colour='red')
-        P = [('x', 'y'), ('x', 'z'), ('x', 'w'), ('y', 'z'), ('y', 'w'), ('z', 'w')]
+        # vertex names: all strings, or (as_str) a mix that cannot be sorted - strings, an integer, a tuple
+        names = ['x', 7, ('p', 1), 'w'] if as_str else ['x', 'y', 'z', 'w']
+        N.add_nodes_from(names, colour='red')
+        P = [(names[a], names[b]) for a in range(4) for b in range(a + 1, 4)]
         for k, e in enumerate(P):
             if bits >> k & 1:
                 N.add_edge(*e, weight=k)
@@ -334,13 +340,17 @@ def _nx_args(which, bits, as_str):
         PerfectMatchingPrinciple(N)
         return snap(N) == before
     D = networkx.DiGraph()
-    D.add_nodes_from([1, 2, 3, 4], tag='t')
-    P = [(1, 2), (1, 3), (1, 4), (2, 3), (2, 4), (3, 4)]
+    names = [1, 'two', (3,), 4.5] if as_str else [1, 2, 3, 4]
+    D.add_nodes_from(names, tag='t')
+    P = [(names[a], names[b]) for a in range(4) for b in range(a + 1, 4)]
     for k, e in enumerate(P):
         if bits >> k & 1:
             D.add_edge(*e)
     before = copy.deepcopy(snap(D))
-    PebblingFormula(D)
+    try:
+        PebblingFormula(D)
+    except ValueError:
+        pass                                   # insertion order need not be a topological order of the names
     return snap(D) == before
 
 
